@@ -390,6 +390,58 @@ func phiLeaves(v ssa.Value) (leaves []phiLeaf, phis map[*ssa.Phi]bool) {
 	return
 }
 
+// siblingInfeasible: the value enters phi q through its edge i, and control is in block b. When a boolean phi of the
+// same block has a constant on that edge and b is only reached after a test of that phi came out the other way, the
+// path through edge i does not reach b (a result pair `return nil, false` / `return errs, true` taken apart again by
+// `if handled`).
+func siblingInfeasible(q *ssa.Phi, i int, b *ssa.BasicBlock) bool {
+	if b == nil {
+		return false
+	}
+	for _, g := range blockGuards(b) {
+		g = normGuard(g)
+		p, ok := g.cond.(*ssa.Phi)
+		if !ok || p.Block() != q.Block() || i >= len(p.Edges) {
+			continue
+		}
+		k, ok := p.Edges[i].(*ssa.Const)
+		if !ok || k.Value == nil {
+			continue
+		}
+		if bb, ok := p.Type().Underlying().(*types.Basic); !ok || bb.Kind() != types.Bool {
+			continue
+		}
+		if (k.Value.String() == "true") != g.val {
+			return true
+		}
+	}
+	return false
+}
+
+// phiLeavesAt is phiLeaves for a use in block b: edges that cannot lead to b (siblingInfeasible) are left out.
+func phiLeavesAt(v ssa.Value, b *ssa.BasicBlock) (leaves []phiLeaf, phis map[*ssa.Phi]bool) {
+	phis = map[*ssa.Phi]bool{}
+	var walk func(v ssa.Value, pred *ssa.BasicBlock, from *ssa.Phi)
+	walk = func(v ssa.Value, pred *ssa.BasicBlock, from *ssa.Phi) {
+		if p, ok := v.(*ssa.Phi); ok {
+			if phis[p] {
+				return
+			}
+			phis[p] = true
+			for i, e := range p.Edges {
+				if siblingInfeasible(p, i, b) {
+					continue
+				}
+				walk(e, p.Block().Preds[i], p)
+			}
+			return
+		}
+		leaves = append(leaves, phiLeaf{v, pred, from})
+	}
+	walk(v, nil, nil)
+	return
+}
+
 // callee returns the called *types.Func (static function, method, or interface method).
 func calleeObj(call ssa.CallInstruction) *types.Func {
 	cc := call.Common()
